@@ -134,6 +134,9 @@ func (t Text) Partition(indices ...int) []Text {
 
 // Clone returns a deep copy of Text.
 func (t Text) Clone() Text {
+	if len(t) == 0 {
+		return nil
+	}
 	newt := make(Text, len(t))
 	for i, seg := range t {
 		newt[i] = seg.Clone()
